@@ -118,7 +118,15 @@ fn rename(m: &mut Module, r: &mut Rand) {
                     fix(&mut c.ty, snapshot, enum_maps, lookup_back);
                     if let (Presence::Default(d), Type::Ref(n)) = (&mut c.presence, &c.ty) {
                         if let Lit::EnumItem(item) = &d.lit {
-                            let old_def = lookup_back(n);
+                            // (the reference may reach the ENUMERATED through aliases)
+                            let mut target = n.clone();
+                            for _ in 0..8 {
+                                match snapshot.def(&target).map(|x| &x.ty) {
+                                    Some(Type::Ref(next)) => target = next.clone(),
+                                    _ => break,
+                                }
+                            }
+                            let old_def = lookup_back(&target);
                             if let Some((_, items)) = enum_maps.iter().find(|(dn, _)| *dn == old_def) {
                                 if let Some((_, new)) = items.iter().find(|(o, _)| o == item) {
                                     d.lit = Lit::EnumItem(new.clone());
